@@ -6,14 +6,14 @@
 package c09
 
 import (
-	"os"
-	"regexp"
 	"bytes"
-	"sync"
 	"encoding/json"
 	"fmt"
+	"os"
+	"regexp"
 	"sort"
 	"strings"
+	"sync"
 	"syscall"
 	"time"
 
@@ -27,8 +27,8 @@ type prop struct{}
 
 func init() { core.Register(prop{}) }
 
-func (prop) ID() string      { return "C09" }
-func (prop) Level() string   { return "exploration" }
+func (prop) ID() string       { return "C09" }
+func (prop) Level() string    { return "exploration" }
 func (prop) Parallelism() int { return 26 } // children mostly sleep through the 40 s grace
 func (prop) Rule() string {
 	return "scenario = one service of the C01 quantifier hosted by the real dispatcher: warm-up, census, history of N sequential connections (C01 dialogue/mutation/raw inputs followed by client close; single datagrams for UDP; FTP PASV/EPSV never connected to) plus silent connections parked at protocol stages (no byte, partial first message, after the first message), 40 s grace (> the 30 s idle timeout), census, N more connections, grace, census. Non-trivial = the history elicited replies or events and both censuses were taken; distinct by (service, N). Every history includes the service's fixed cases (request storms, ftp data-connection commands with ill-formed arguments and transfers without a data connection, repeated PASV/EPSV, authenticated ssh channel storms). Also: key sequences that never end (telnet, authenticated ssh shell), an ssh shell that receives 40 window-change requests, a slow passive ftp session with several transfers on one data connection; an end-of-run census reports connection handlers that are still running after every client has left."
@@ -107,16 +107,16 @@ type silentConn struct {
 }
 
 type obs struct {
-	N        int          `json:"n"`
-	C0       census       `json:"c0"`
-	C1       census       `json:"c1"`
-	C2       census       `json:"c2"`
-	Silent   []silentConn `json:"silent"`
-	Replies  int          `json:"replies"`
-	Events   int          `json:"events"`
-	Linger1  int          `json:"linger_right_after_close"`
-	Dump     string       `json:"dump,omitempty"`
-	Slow     string       `json:"slow_passive_session_transcript,omitempty"`
+	N       int          `json:"n"`
+	C0      census       `json:"c0"`
+	C1      census       `json:"c1"`
+	C2      census       `json:"c2"`
+	Silent  []silentConn `json:"silent"`
+	Replies int          `json:"replies"`
+	Events  int          `json:"events"`
+	Linger1 int          `json:"linger_right_after_close"`
+	Dump    string       `json:"dump,omitempty"`
+	Slow    string       `json:"slow_passive_session_transcript,omitempty"`
 	// HandlersLeft: connection handlers still running 2 s after the last client of all (silent ones included) left
 	HandlersLeft map[string]int `json:"handlers_left_at_the_end,omitempty"`
 }
@@ -160,6 +160,44 @@ func (prop) Child(b core.Batch, o *core.Obs) {
 			ob.Replies += info.Reply
 			ob.Events += info.Events
 			ob.Linger1 += info.Linger
+		}
+		if s.Net == "tcp" {
+			// sessions that outlive a later one: A opens and sends its first message; B, from another address, runs
+			// its whole dialogue and leaves; then A goes on, finishes and leaves
+			for i := 0; i < 6; i++ {
+				dA := s.Dialogue(core.NewRng(b.Seed, "C09/outlive-a/"+s.Type, from+i))
+				dB := s.Dialogue(core.NewRng(b.Seed, "C09/outlive-b/"+s.Type, from+i))
+				if len(dA) < 2 {
+					continue
+				}
+				ca := lab.NewClient(w.Srv.L.DialTCP(lab.TCPAddr("10.0.0.1", s.Port), lab.TCPAddr("203.0.113.80", 7200+from+i)))
+				step := func(cl *lab.Client, m []byte) bool {
+					if cl.Send(m, time.Second) != nil {
+						return false
+					}
+					cl.WaitIdle(60 * time.Millisecond)
+					return true
+				}
+				ca.WaitIdle(60 * time.Millisecond)
+				okA := step(ca, dA[0])
+				cb := lab.NewClient(w.Srv.L.DialTCP(lab.TCPAddr("10.0.0.1", s.Port), lab.TCPAddr("203.0.113.81", 7300+from+i)))
+				cb.WaitIdle(60 * time.Millisecond)
+				for _, m := range dB {
+					if !step(cb, m) {
+						break
+					}
+				}
+				ob.Replies += len(cb.Received())
+				cb.Close()
+				time.Sleep(20 * time.Millisecond)
+				for _, m := range dA[1:] {
+					if !okA || !step(ca, m) {
+						break
+					}
+				}
+				ob.Replies += len(ca.Received())
+				ca.Close()
+			}
 		}
 		if s.Type == "ftp" {
 			// passive-mode requests that are never connected to, with and without a transfer command
